@@ -113,7 +113,29 @@ def ob_parse_errors(ctx, res):
         if len(tail) != 1 or not any(up(a["pat"]).startswith("Err(") and up(strip(a["body"])).startswith("Some(Err(") for a in tail[0]["arms"]):
             res.fail("parse/%s/result" % name, fn, "a column error must be returned as Some(Err(..))")
             continue
-        res.ok(fn, "%s: %d required columns; missing or unparsable -> Some(Err(BedValueError::InvalidInput))" % (name, ncols))
+        # `None` means "no more data" to every caller, so no line that was read may produce it: the first column (`split.next()` of a splitn,
+        # which always yields an item) must be taken unconditionally
+        nones = [n for n in walk_no_nested_fn(fn.body) if n.k == "return" and n.get("e") is not None and up(strip(n["e"])) == "None"]
+        nones += [a for a in walk_no_nested_fn(fn.body) if a.k == "arm" and up(strip(a["body"])) == "None"]
+        badn = None
+        for n in nones:
+            m = n.parent
+            while m is not None and isinstance(m, Node) and m.k != "match":
+                m = m.parent
+            okn = False
+            if m is not None and _sqz_(up(strip(m["scrut"]))) == "split.next":
+                some = [a for a in m["arms"] if up(a["pat"]).startswith("Some(")]
+                # the Some arm is irrefutable: binds a plain identifier, no guard
+                if len(some) == 1 and some[0].get("guard") is None and re.fullmatch(r"Some\(\w+\)", up(some[0]["pat"])):
+                    okn = True
+            if not okn:
+                badn = n
+        if badn is not None:
+            res.fail("parse/%s/line-as-eof" % name, badn,
+                     "%s can return None for a line that was read: every caller takes None for the end of the input, so a blank / whitespace-only / tab-led line "
+                     "silently ends the serial stream (later records are dropped, write returns Ok) or is skipped by the parallel source instead of being refused" % name)
+            continue
+        res.ok(fn, "%s: %d required columns; missing or unparsable -> Some(Err(BedValueError::InvalidInput)); no line yields None" % (name, ncols))
     fn = ctx.ast.fn(BP, "next", impl="BedFileStream")
     ms = [n for n in walk_no_nested_fn(fn.body) if n.k == "match"]
     t = up(fn.body)
@@ -180,7 +202,7 @@ def ob_input_panics(ctx, res):
 
 
 def ob_empty_and_tool_refusals(ctx, res):
-    """C13-G9: an input that yields no chromosome is refused by the writer itself (whatever the source); the converters never report success for a refusal"""
+    """C13-G10: an input that yields no chromosome is refused by the writer itself (whatever the source); the converters never report success for a refusal"""
     W = "bigtools/src/bbi/bbiwrite.rs"
     for name in ("write_vals", "write_vals_no_zoom"):
         fn = ctx.ast.fn(W, name)
@@ -221,3 +243,7 @@ def ob_empty_and_tool_refusals(ctx, res):
                      "`return Ok(())` after the output file has been created: the tool prints a refusal (unsorted input under --parallel yes) and exits 0, leaving an empty output file")
         else:
             res.ok(fn, "%s: no `return Ok(())` once the output file exists: a refusal is an error exit" % name)
+
+
+def _sqz_(t):
+    return re.sub(r"[\s()]", "", t)
